@@ -219,12 +219,12 @@ def ecc_keys(curve):
     if curve in WEIER:
         sz = c.size_bytes
         hi = 0x80 if curve != "p521" else 0x01
-        # smallest d whose abscissa starts with a zero octet and whose ordinate has the top bit set (d itself has
-        # many leading zero octets)
-        out.append(find_ecc(curve, curve + "-x00", range(2, 10 ** 6), lambda x, y: _top(x, sz) == 0 and _top(y, sz) >= hi))
-        # largest d (top bit set) whose ordinate starts with a zero octet and whose abscissa has the top bit set
+        # smallest d whose abscissa starts with a zero octet and whose ordinate is odd with the top bit set (d itself
+        # has many leading zero octets)
+        out.append(find_ecc(curve, curve + "-x00", range(2, 10 ** 6), lambda x, y: _top(x, sz) == 0 and _top(y, sz) >= hi and y & 1))
+        # largest d (top bit set) whose ordinate is even and starts with a zero octet and whose abscissa has the top bit set
         out.append(find_ecc(curve, curve + "-y00", range(c.order - 2, 0, -1),
-                            lambda x, y: _top(y, sz) == 0 and _top(x, sz) >= hi))
+                            lambda x, y: _top(y, sz) == 0 and _top(x, sz) >= hi and not y & 1))
         d = seeded_int("c08/ecc/" + curve, c.order.bit_length() + 64) % (c.order - 1) + 1
         out.append({"t": "ECC", "name": curve + "-seeded", "curve": curve, "d": d, "seed": None})
     elif curve in EDW:
